@@ -684,7 +684,7 @@ def opJudge (j : Json) : Except String Json := do
 def opWfRaw (j : Json) : Except String Json := do
   let sets ← (← getArr j "sets").toList.mapM strsOf
   let t ← ptreeOfJson (← j.getObjVal? "raw")
-  pure <| Json.mkObj [("wf", O2P.Gate.wfT false t), ("nd", decide (O2P.Gate.NE t.labels).Nodup),
+  pure <| Json.mkObj [("wf", O2P.Gate.wfT false sets t), ("nd", decide (O2P.Gate.NE t.labels).Nodup),
     ("names", sets.all fun s => !s.contains "" && decide s.Nodup)]
 
 /-- soundness against an explicit list of observed sets (no source tree): the observed sets the inferred tree does
